@@ -36,6 +36,8 @@ def spec(tier):
     add("default", 1 if quick else 40, 100 if quick else 600, ncpu=2, extra=BULK, timeout=T)
     add("default", 1 if quick else 40, 100 if quick else 600, ncpu=4, extra=BULK, timeout=T)
     add("chan", 1 if quick else 20, 60 if quick else 400, ncpu=1, extra=BULK, timeout=T)
+    # EINTR in read / write / epoll_wait: signals delivered to random threads, the library's workers included
+    add("default", 1 if quick else 40, 100 if quick else 600, extra=BULK + ["--sigstorm=2000"], timeout=T)
     # buffer lifetime
     add("default", 1 if quick else 60, 80 if quick else 500, flavor="asan", extra=BULK, timeout=600 if quick else 1800)
     # dedicated jobs for the scenario classes excluded from the bulk
